@@ -875,4 +875,16 @@ theorem eval_owned (base lbase : Nat) : ∀ (s : RSpec) (st : BSt) (p : Nat), s.
       have h3 := onError_owned h2.1.own (enter st p l).2 e' e2
       exact ⟨(((e1.trans s1).trans h1.1).trans h2.1).trans h3.1, by rw [h3.2]⟩
 
+/-- `n` re-entrant calls inside one another: the custom spec `n+1` makes an inner call (the way
+    `how` says) whose spec is the custom spec `n`, …, the innermost inner call evaluates `body` -/
+def nestRe (how : How) (body : RSpec) : Nat → RSpec
+  | 0 => body
+  | n + 1 => .reent (n + 1) how (nestRe how body n) (.leaf 0 (.ok 0))
+
+theorem nestRe_covered (how : How) (body : RSpec) (hh : how.covers = true) (hb : body.covered = true) (n : Nat) :
+    (nestRe how body n).covered = true := by
+  induction n with
+  | zero => exact hb
+  | succ n ih => simp [nestRe, RSpec.covered, hh, ih]
+
 end Glom.C20.Re
